@@ -20,6 +20,7 @@ HeadsQuick(x) == {
   M("req", <<80,85,84,32,47,117,32,72,84,84,80,47,49,46,49,13,10,84,114,97,110,115,102,101,114,45,69,110,99,111,100,105,110,103,58,32,99,104,117,110,107,101,100,13,10,13,10,49,13,10,33,13,10,48,13,10,13,10>>)   (* PUT /u HTTP/1.1\r\nTransfer-Encoding: chunked\r\n\r\n1\r\n!\r\n0\r\n\r\n *)
 }
 HeadsMore(x) == {
+  M("req", <<80,79,83,84,32,47,112,32,72,84,84,80,47,49,46,49,13,10,67,111,110,116,101,110,116,45,76,101,110,103,116,104,58,32,50,13,10,72,111,115,116,58,32,104,13,10,85,115,101,114,45,65,103,101,110,116,58,32,117,13,10,90,79,78,69,45,73,78,70,79,58,32,49,13,10,13,10,104,105>>)   (* POST /p HTTP/1.1\r\nContent-Length: 2\r\nHost: h\r\nUser-Agent: u\r\nZONE-INFO: 1\r\n\r\nhi *),
   M("resp", <<72,84,84,80,47,49,46,49,32,50,48,48,32,79,75,13,10,84,82,65,78,83,70,69,82,45,69,78,67,79,68,73,78,71,58,32,99,104,117,110,107,101,100,13,10,88,45,121,58,32,32,122,13,10,13,10,97,13,10,48,49,50,51,52,53,54,55,56,57,13,10,49,49,13,10,65,66,67,68,69,70,71,72,73,74,75,76,77,78,79,80,81,13,10,48,13,10,13,10>>)   (* HTTP/1.1 200 OK\r\nTRANSFER-ENCODING: chunked\r\nX-y:  z\r\n\r\na\r\n0123456789\r\n11\r\nABCDEFGHIJKLMNOPQ\r\n0\r\n\r\n *),
   M("resp", <<72,84,84,80,47,49,46,48,32,50,48,48,32,79,75,13,10,67,111,110,110,101,99,116,105,111,110,58,32,107,101,101,112,45,97,108,105,118,101,13,10,67,111,110,116,101,110,116,45,76,101,110,103,116,104,58,32,49,13,10,13,10,33>>)   (* HTTP/1.0 200 OK\r\nConnection: keep-alive\r\nContent-Length: 1\r\n\r\n! *),
   M("resp", <<72,84,84,80,47,49,46,49,32,50,48,48,32,79,75,13,10,67,111,110,110,101,99,116,105,111,110,58,32,107,101,101,112,45,97,108,105,118,101,13,10,13,10>>)   (* HTTP/1.1 200 OK\r\nConnection: keep-alive\r\n\r\n *),
@@ -68,11 +69,12 @@ ChunkAlphabet == {13, 10, 48, 50, 97, 103}                      \* CR LF '0' '2'
 MalChunks(n) == {[kind |-> "cbody", bytes |-> x] : x \in Strings(ChunkAlphabet, n)}
 Truncations(ms) == UNION {{[m EXCEPT !.bytes = SubSeq(m.bytes, 1, k)] : k \in 0..(Len(m.bytes) - 1)} : m \in ms}
 MalQuick(x) == MalHeads(3) \cup MalStarts(3) \cup MalChunks(4) \cup Truncations(HeadsQuick(x))
-MalThorough(x) == MalHeads(5) \cup MalStarts(4) \cup MalChunks(6) \cup Truncations(HeadsThorough(x))
+MalThorough(x) == MalHeads(5) \cup MalStarts(4) \cup MalChunks(5) \cup {[kind |-> "cbody", bytes |-> y] : y \in [1..6 -> {13, 10, 48, 50, 97}]} \cup Truncations(HeadsThorough(x))
 \* scope of the known-finding configuration: one witness per KF switch
 KfScope(x) == {M("req", <<71,69,84,32,47,32,72,84,84,80,47,49,46,49,13,10,13,10>>),                       (* GET / HTTP/1.1\r\n\r\n *)
                M("resp", P_RESP \o <<65,117,116,104,111,114,105,122,97,116,105,111,110,58,32,120>> \o CRLFCRLF),  (* Authorization: x *)
                M("resp", P_RESP \o <<97,98,99>> \o CRLFCRLF)}                                              (* header line without colon *)
+              \cup {M("req", <<80,79,83,84,32,47,112,32,72,84,84,80,47,49,46,49,13,10,67,111,110,116,101,110,116,45,76,101,110,103,116,104,58,32,50,13,10,72,111,115,116,58,32,104,13,10,85,115,101,114,45,65,103,101,110,116,58,32,117,13,10,90,79,78,69,45,73,78,70,79,58,32,49,13,10,13,10,104,105>>)}     (* Content-Length, Host, User-Agent, ZONE-INFO: the index order breaks *)
               \cup ZeroWriters(x) \cup {M("resph", <<72,84,84,80,47,49,46,49,32,50,48,48,32,13,10,84,114,97,110,115,102,101,114,45,69,110,99,111,100,105,110,103,58,32,99,104,117,110,107,101,100,13,10,13,10>>)}
 ScopeMsgs == CASE Scope = "kf" -> KfScope(0) [] Scope = "valid-quick" -> ValidQuick(0) [] Scope = "valid-thorough" -> ValidThorough(0)
               [] Scope = "mal-quick" -> MalQuick(0) [] Scope = "mal-thorough" -> MalThorough(0)
